@@ -910,3 +910,85 @@ def r7_5(ctx):
                 bad.append(b.where(b.term_loc(s)))
     ctx.ob("send_search_info:clock-not-decision-relevant", not bad, bad[0] if bad else b.file, "the clock read of the info line feeds only the printed `time` field")
     ctx.floor("clock reads in the search cone", n, 2)
+
+
+def r11_5(ctx):
+    """Horizon: a node at remaining depth 0 is handed to quiescence only when
+    is_check(board, board.to_move) is false (the same test that decides mate at a move-less node);
+    otherwise it is extended."""
+    f = ctx.facts
+    b = f.body(ABS)
+    ctx.note_fn(ABS)
+    ex = Exprs(b, keep=_named_i32(b))
+    bp = one_param(b, "&board::BoardState")
+    depthp = params_by_type(b, "u8")
+    handovers = []
+    for bb, t in b.iter_calls(callee=QUIESCE):
+        a = strip_refs(ex.call_args(bb)[one_param(f.body(QUIESCE), "&board::BoardState") - 1])
+        if a == ("arg", bp):
+            handovers.append(bb)
+    ctx.floor("leaf hand-overs to quiescence", len(handovers), 1)
+    for bb in handovers:
+        facts_ = dominating_facts(b, ex, bb)
+        at_zero = False
+        not_check = False
+        others = []
+        for d, vals, excl, s, tg in facts_:
+            truth = True if ((vals is None and excl == [0]) or vals == [1]) else (False if vals == [0] else None)
+            d0 = strip_refs(d)
+            if d0[0] == "bin" and d0[1] == "Eq" and root_local(d0[2]) in depthp and d0[3] == ("const", 0) and truth:
+                at_zero = True
+            elif d0[0] == "call" and d0[1] == IS_CHECK and truth is False:
+                own = strip_refs(d0[2][0]) == ("arg", bp) and strip_refs(d0[2][1]) == ("field", ("deref", ("arg", bp)), "to_move")
+                not_check = not_check or own
+            elif d0[0] == "call" and d0[1] in (OOT, IS3):
+                continue
+            else:
+                others.append(show_expr(d0, b)[:60])
+        ctx.ob("alpha_beta_search:horizon:quiescence-only-when-not-in-check", at_zero and not_check, b.where(b.term_loc(bb)),
+               "the leaf is handed to quiescence under depth == 0 (%s) and !is_check(board, board.to_move) (%s); other conditions: %s" % (at_zero, not_check, others))
+        ctx.ob("alpha_beta_search:horizon:no-other-condition", not others, b.where(b.term_loc(bb)), "conditions besides depth and check: %s" % others)
+
+
+def r11_4(ctx):
+    """Root ordering: the 'search this first' flag is put on a root list generated afresh in the same
+    iteration, so only the last accepted best move carries it."""
+    f = ctx.facts
+    b = f.body(GBM)
+    ctx.note_fn(GBM)
+    ex = Exprs(b, keep={l for l in b.names if b.local_ty(l) == "std::vec::Vec<board::BoardState>"})
+    pos_inf = f.const_value("engine::POS_INF")
+    loops = b.loops()
+    if not loops:
+        raise ShapeNotRecognised("get_best_move has no iterative-deepening loop")
+    outer = max(loops, key=lambda h: len(loops[h]))
+    n = 0
+    for loc, st in b.iter_stmts():
+        if st["k"] != "assign":
+            continue
+        p = st["place"]
+        if not (p["proj"] and p["proj"][-1]["k"] == "field" and p["proj"][-1].get("name") == "order_heuristic"):
+            continue
+        e = ex.rvalue(st["rv"], loc)
+        if e != ("const", pos_inf):
+            continue
+        n += 1
+        # which list: the vector the written element comes from
+        base = ex.place({"local": p["local"], "proj": p["proj"][:-1], "ty": ""}, loc)
+        ptr = ex.local(p["local"], loc)
+        vec = None
+        for y in data_slice(ex, base) | data_slice(ex, ptr):
+            if y[0] == "call" and y[1].endswith("::into_iter"):
+                r = root_local(y[2][0])
+                if r is not None and b.local_ty(r) == "std::vec::Vec<board::BoardState>":
+                    vec = r
+        if vec is None:
+            ctx.ob("get_best_move:pv-flag#%d:list" % n, False, b.where(loc), "cannot tell which list the flagged move belongs to", reason="shape-not-recognised")
+            continue
+        defs = b.reaching().defs(vec, loc)
+        whole = [dl for dl, k in defs if k == "whole"]
+        fresh = bool(whole) and all(dl[0] in loops[outer] and b.node_dominates(dl[0], loc[0]) for dl in whole)
+        ctx.ob("get_best_move:pv-flag#%d:on-fresh-list" % n, fresh, b.where(loc),
+               "the list whose element is flagged was generated at %s; it must be regenerated inside the same iteration, otherwise flags of earlier best moves pile up and an already refuted move is searched (and sent) first" % (
+                   [b.where(dl) for dl in whole]))
+    ctx.floor("pv flag writes at the root", n, 1)
